@@ -38,7 +38,15 @@ EXPLANATION = (
     "before that which raises in the early-failure state (state only a later chain stage creates, attributes still "
     "None, must-exist file operations, unless tested or inside try), and upload_finished removes the storage index "
     "from _active_uploads under the key it was registered with, which CHKUploadHelper.__init__ stores as "
-    "self._storage_index from its own argument. "
+    "self._storage_index from its own argument; (11) in Uploader.upload, AssistedUploader.start and CHKUploader.start the "
+    "uploadable and every wrapper built around it (EncryptAnUploadable, RemoteEncryptedUploadable: read position, hashers, "
+    "AES-CTR state) is handed to at most one consumer on every path, callbacks and errbacks registered on that path "
+    "included (no fallback or retry re-reads an object that a first, helper-assisted, upload may have advanced); "
+    "(12) Helper.remote_upload_chk answers only with the upload already active for the storage index or with the Deferred "
+    "of self._check_chk(storage_index) followed by _did_chk_check for that storage index, nothing else calls "
+    "_did_chk_check / _make_chk_upload_helper / chk_upload, _check_chk answers only with the Deferred of a checker made "
+    "for its storage index in this call, and _did_chk_check reports only its own argument as already present (state that "
+    "outlives the call never stands in for the grid check). "
     "Undecided: byte equality of shares, crash interleavings between write and rename, foolscap transport, "
     "honesty of the helper and of the storage servers answering the already-present query; exceptions other than "
     "the modelled early-failure ones inside the failure handlers; the value of the expected size (what get_size "
@@ -132,6 +140,31 @@ def _reaching_value(fnorm, node, name):
     if d < 0:
         return None
     return assign_value(fnorm.cfg.nodes[d], name)
+
+
+def _reaching_values(fnorm, node, name, depth=4):
+    """[(defining CFG node, value AST)] for every definition of local `name` that reaches `node`, plain copies of
+    other locals followed back (x = E; y = x  ->  E); None when one of them is not a plain assignment
+    (parameter, loop target, ...) or none reaches."""
+    ds = fnorm.rd.get(node.id, {}).get(name)
+    if not ds:
+        return None
+    out = []
+    for d in sorted(ds):
+        if d < 0:
+            return None
+        dn = fnorm.cfg.nodes[d]
+        v = assign_value(dn, name)
+        if v is None:
+            return None
+        if isinstance(v, ast.Name) and depth > 0 and fnorm.rd.get(dn.id, {}).get(v.id):
+            sub = _reaching_values(fnorm, dn, v.id, depth - 1)
+            if sub is None:
+                return None
+            out += sub
+        else:
+            out.append((dn, v))
+    return out
 
 
 def _node_of(fn, call):
@@ -1513,6 +1546,225 @@ def run(ctx: Context):
                 r.violation(ef, ef.loc(), "_loop's errback can return without failing %s (path: %s): the Deferred that "
                             "_start_reading returned never fires and the failed fetch is never reported" % (fire_p, w.brief()), w)
 
+    # -- 11. one consumer per stateful uploadable ----------------------------
+    with ctx.rule("C44.11", "R10/E7", "the uploadable and every wrapper built around it (EncryptAnUploadable, "
+                  "RemoteEncryptedUploadable: read position, hashers, AES-CTR state) are handed to at most one consumer "
+                  "on every path, counting callbacks and errbacks registered on that path (no fallback / retry that "
+                  "re-reads an object a first uploader may have advanced)", expected=6) as r:
+        roots = [(idx.func(UP + ":Uploader.upload"), True),
+                 (idx.func(UP + ":AssistedUploader.start"), False),
+                 (idx.func(UP + ":CHKUploader.start"), False)]
+        for (root, need_wrapper) in roots:
+            ps = first_positional_params(root)
+            if not ps:
+                raise AnchorVanished("%s no longer takes the uploadable" % root.qual)
+            oc = _OneConsumer(idx, root, ps[0])
+            if need_wrapper and not any("EncryptAnUploadable" in d for d in oc.desc.values()):
+                raise AnchorVanished("%s no longer wraps the uploadable in EncryptAnUploadable" % root.qual)
+            n_sites = 0
+            for gid in sorted(oc.desc):
+                sites = oc.sites(gid)
+                for (g, c) in sites:
+                    n_sites += 1
+                    r.site(g, c, "consumer of %s" % oc.desc[gid])
+                bad = oc.overuse(gid)
+                r.count(oc.states)
+                if bad is not None:
+                    g, node, w = bad
+                    r.violation(g, g.loc(node), "%s is handed to more than one consumer on one path (consumers: %s): the "
+                                "object carries a read position / hash / AES-CTR state that the first consumer (a "
+                                "helper-assisted upload that already served some ciphertext) may have advanced, so a second "
+                                "one - a fallback, a retry - encodes shifted ciphertext and the upload is no longer "
+                                "equivalent to a direct one" % (oc.desc[gid], "; ".join(
+                                    "%s in %s" % (src(f, c), short(f)) for (f, c) in sites)), w)
+            if n_sites == 0:
+                raise AnchorVanished("%s no longer hands the uploadable to anything" % root.qual)
+
+    # -- 12. the need-upload decision rests on this call's grid check -------
+    with ctx.rule("C44.12", "R1/R4", "Helper.remote_upload_chk answers either with the upload already active for the storage "
+                  "index or with the Deferred of self._check_chk(storage_index) followed by _did_chk_check; nothing else "
+                  "calls _did_chk_check / _make_chk_upload_helper / chk_upload; _check_chk answers only with the Deferred "
+                  "of a checker made for its storage index; _did_chk_check reports only its argument as already present",
+                  expected=7) as r:
+        ru = idx.func(HELPER + ".remote_upload_chk")
+        dc = idx.func(HELPER + "._did_chk_check")
+        ck = idx.func(HELPER + "._check_chk")
+        mkf = idx.func(HELPER + "._make_chk_upload_helper")
+        si = first_positional_params(ru)[0]
+        rcfg = ru.cfg()
+        rn = FlowNorm(ru)
+        dparams = first_positional_params(dc)
+        if len(dparams) < 2:
+            raise AnchorVanished("_did_chk_check(already_present, storage_index, ..) parameters")
+
+        def is_check_call(n, v):
+            while isinstance(v, ast.Call) and isinstance(v.func, ast.Attribute) \
+                    and v.func.attr in ("addCallback", "addErrback", "addBoth", "addCallbacks"):
+                v = v.func.value      # d = check(..).addCallback(..): the links are examined as registrations on d
+            return isinstance(v, ast.Call) and call_name(v) == "self._check_chk" and bool(v.args) \
+                and rn.norm(n, v.args[0]) == si
+
+        def fed_by_check(n, var):
+            vals = _reaching_values(rn, n, var)
+            return vals is not None and all(is_check_call(m, v) for (m, v) in vals), vals
+        # (a) the links that lead to _did_chk_check
+        links, accounted = [], set()
+        regs = _regs(ru)
+        for x in regs:
+            tgt = x.target
+            hit = None
+            if attr_path(tgt) == "self._did_chk_check":
+                accounted.add(id(tgt))
+                hit = (x.args[0] if x.args else None)
+            else:
+                f = _cb_func(idx, ru, tgt) if isinstance(tgt, (ast.Lambda, ast.Name)) else None
+                if f is not None and f.parent is ru:
+                    fp = first_positional_params(f)
+                    for c in _calls(f, "_did_chk_check"):
+                        if call_name(c) == "self._did_chk_check" and fp and c.args and attr_path(c.args[0]) == fp[0]:
+                            accounted.add(id(c))
+                            hit = c.args[1] if len(c.args) > 1 else kwarg(c, dparams[1])
+            if hit is None and not (attr_path(tgt) == "self._did_chk_check"):
+                continue
+            links.append(x)
+            rnode = _node_of(ru, x.call)
+            r.site(ru, x.call, "decision link on %s" % (x.recv or "?"))
+            r.require(x.kind == "cb", ru, ru.loc(x.call), "_did_chk_check is registered as %s: it must run on the result of the "
+                      "grid check and only on it" % x.kind)
+            r.require(hit is not None and rn.norm(rnode, hit) == si, ru, ru.loc(x.call),
+                      "_did_chk_check decides for %s, not for the storage index that was checked (%s)"
+                      % (src(ru, hit) if hit is not None else "nothing", si))
+            if not x.recv:
+                raise AnalysisError("remote_upload_chk: the Deferred that _did_chk_check is registered on is not a variable")
+            ok, vals = fed_by_check(rnode, x.recv)
+            r.require(ok, ru, ru.loc(x.call), "the need-upload decision _did_chk_check is fed by %s, not (only) by "
+                      "self._check_chk(%s): the helper can decide that the file must be uploaded without having asked "
+                      "the grid in this call, so a file that is already there is fetched and uploaded again"
+                      % (", ".join(sorted({src(ru, v) if v is not None else "?" for (_m, v) in (vals or [(None, None)])})), si))
+            for y in regs:
+                if y is x:
+                    break
+                if y.recv != x.recv or y.kind == "eb":
+                    continue
+                f = _cb_func(idx, ru, y.target)
+                passthru = False
+                if f is not None and first_positional_params(f):
+                    fnm = FlowNorm(f)
+                    rets = f.cfg().find(is_return)
+                    passthru = bool(rets) and all(_returns_var(fnm, m, first_positional_params(f)[0]) for m in rets) \
+                        and not find_path_avoiding(f.cfg(), lambda m: m.kind == "exit", gate_node=is_return, skip_exc_edges=True)
+                r.require(passthru, ru, ru.loc(y.call), "%r sits between the grid check and _did_chk_check and can replace the "
+                          "check result" % y)
+        if not links:
+            raise AnchorVanished("remote_upload_chk no longer registers _did_chk_check on the grid check")
+        # who else uses the decision / creates upload helpers
+        for cs in cg.calls_named("_did_chk_check"):
+            if id(cs.call) not in accounted:
+                r.violation(cs.fn, cs.loc, "%s calls _did_chk_check directly (%s): the need-upload decision is taken on a value "
+                            "that is not the result of this call's grid check, so a file that is already in the grid is "
+                            "fetched and uploaded again" % (short(cs.fn), src(cs.fn, cs.call)))
+        for (f, nd) in cg.refs_named("_did_chk_check"):
+            if id(nd) not in accounted:
+                r.violation(f, f.loc(nd), "%s uses _did_chk_check as a value outside the grid-check chain of "
+                            "remote_upload_chk" % short(f))
+        n_mk = 0
+        for cs in cg.calls_named("_make_chk_upload_helper"):
+            n_mk += 1
+            r.site(cs.fn, cs.call, "upload helper creation")
+            if not (cs.fn.qual == dc.qual or cs.fn.qual.startswith(dc.qual + ".")):
+                r.violation(cs.fn, cs.loc, "%s creates an upload helper outside _did_chk_check, i.e. without the result of the "
+                            "grid check" % short(cs.fn))
+        for (f, nd) in cg.refs_named("_make_chk_upload_helper"):
+            r.violation(f, f.loc(nd), "%s uses _make_chk_upload_helper as a value" % short(f))
+        n_up = 0
+        for cs in cg.calls_named("chk_upload", "CHKUploadHelper"):
+            n_up += 1
+            r.site(cs.fn, cs.call, "upload helper construction")
+            if cs.fn.qual != mkf.qual:
+                r.violation(cs.fn, cs.loc, "%s constructs an upload helper outside _make_chk_upload_helper, i.e. without the "
+                            "result of the grid check" % short(cs.fn))
+        if n_mk == 0 or n_up == 0:
+            raise AnchorVanished("creation of upload helpers in Helper")
+        # (b) what remote_upload_chk answers
+        active = {norm_src("self._active_uploads[%s]" % si), norm_src("self._active_uploads.get(%s)" % si),
+                  norm_src("self._active_uploads.get(%s, None)" % si)}
+        link_nodes = [_node_of(ru, x.call) for x in links]
+        rets = rcfg.find(is_return)
+        if not rets:
+            raise AnchorVanished("remote_upload_chk returns nothing")
+        for n in rets:
+            r.site(ru, n.ast, "answer")
+            v = _ret_expr(rn, n)
+            if isinstance(v, ast.Tuple) and len(v.elts) == 2 and _falsy_const(v.elts[0]) and rn.norm(n, v.elts[1]) in active:
+                continue      # the upload that is in progress for this storage index
+            dvs = [x.recv for x in links if _returns_var(rn, n, x.recv)]
+            if dvs:
+                ok, vals = fed_by_check(n, dvs[0])
+                r.require(ok, ru, ru.loc(n.ast), "the returned Deferred %s can come from %s, not from self._check_chk(%s)"
+                          % (dvs[0], ", ".join(sorted({src(ru, v_) if v_ is not None else "?" for (_m, v_) in (vals or [(None, None)])})), si))
+                continue
+            r.violation(ru, ru.loc(n.ast), "remote_upload_chk answers %s: neither the upload already active for %s nor the "
+                        "Deferred of this call's grid check followed by _did_chk_check - state that outlives the call stands "
+                        "in for the check, so a file that is already in the grid is fetched and uploaded again"
+                        % (src(ru, n.ast.value) if n.ast.value is not None else "None", si))
+        for x, ln in zip(links, link_nodes):
+            for (n, w) in find_path_avoiding(rcfg, lambda m, _v=x.recv: _returns_var(rn, m, _v),
+                                             gate_node=lambda m, _l=ln: m is _l, kill=stores(x.recv)):
+                r.violation(ru, ru.loc(n.ast), "the check Deferred is returned without _did_chk_check on it (path: %s)" % w.brief(), w)
+        # (c) _check_chk answers with the Deferred of a checker made for its storage index
+        csi = first_positional_params(ck)[0]
+        kn2 = FlowNorm(ck)
+        crets = ck.cfg().find(is_return)
+        if not crets:
+            raise AnchorVanished("_check_chk returns nothing")
+
+        def made_for_si(n, v):
+            if not (isinstance(v, ast.Call) and call_tail(v) in ("chk_checker", "CHKCheckerAndUEBFetcher")):
+                return False
+            return any(kn2.norm(n, a) == csi for a in list(v.args) + [k.value for k in v.keywords])
+
+        def is_grid_check(n, v):
+            if not (isinstance(v, ast.Call) and call_tail(v) == "check" and isinstance(v.func, ast.Attribute) and not v.args):
+                return False
+            recv = v.func.value
+            if isinstance(recv, ast.Name):
+                vals = _reaching_values(kn2, n, recv.id)
+                return vals is not None and all(made_for_si(m, e) for (m, e) in vals)
+            return made_for_si(n, recv)
+        for n in crets:
+            r.site(ck, n.ast, "check answer")
+            ch = _ret_chain(kn2, n)
+            ok = False
+            if is_grid_check(n, ch[-1]):
+                ok = True
+            else:
+                for e in ch:
+                    if isinstance(e, ast.Name):
+                        vals = _reaching_values(kn2, n, e.id)
+                        if vals is not None and all(is_grid_check(m, v) for (m, v) in vals):
+                            ok = True
+                            break
+            r.require(ok, ck, ck.loc(n.ast), "Helper._check_chk can answer %s, which is not the Deferred of a grid check "
+                      "(chk_checker(.., %s, ..).check()) made in this call: a remembered verdict stands in for asking the "
+                      "servers, so a file that is already in the grid is fetched and uploaded again"
+                      % (src(ck, n.ast.value) if n.ast.value is not None else "None", csi))
+        # (d) _did_chk_check reports only its own argument as already present
+        ap = dparams[0]
+        dcn = FlowNorm(dc)
+        n_t = 0
+        for n in dc.cfg().find(is_return):
+            v = _ret_expr(dcn, n)
+            if not (isinstance(v, ast.Tuple) and len(v.elts) == 2):
+                r.violation(dc, dc.loc(n.ast), "_did_chk_check answers %s, not (results, upload helper)" % src(dc, n.ast.value))
+                continue
+            n_t += 1
+            r.site(dc, n.ast, "decision")
+            r.require(_falsy_const(v.elts[0]) or dcn.norm(n, v.elts[0]) == ap, dc, dc.loc(n.ast),
+                      "_did_chk_check reports %s as the already-present results, which is not the result of this call's grid "
+                      "check (%s)" % (src(dc, v.elts[0]), ap))
+        if n_t == 0:
+            raise AnchorVanished("_did_chk_check returns nothing")
+
 
 # ------------------------------------------------------------ shared pieces
 def _data_callback(idx, fetch):
@@ -1975,3 +2227,266 @@ def _check_handler(r, idx, h, obligations, comp, init):
                                 % (short(h), msg, what, ws[0][1].brief()), ws[0][1])
                     break
     r.count(n_states)
+
+
+# ------------------------------------------------------------ C44.11 pieces
+_OBSERVERS = {"isinstance", "precondition", "_assert", "repr", "id", "type", "hasattr", "log", "msg", "err"}
+_ADAPTER = re.compile(r"^I[A-Z][A-Za-z]*$")
+_READS = {"read", "read_encrypted"}
+_REG_TAILS = {"addCallback", "addErrback", "addBoth", "addCallbacks"}
+
+
+class _OneConsumer:
+    """Linear-use monitor for a stateful stream object.
+
+    Tracked objects ("groups"): the seed parameter of `root` with its aliases (plain copies, self.<attr> copies,
+    interface adapters I...(x)), and every object constructed from a tracked one and stored in a variable
+    (a wrapper: a new group).  A *consumer* of a group is a call that is handed one of its names as an argument
+    (observers such as log / isinstance / precondition excepted), or x.read / x.read_encrypted on it; method
+    calls on the object (get_size, get_storage_index, close) are not consumers.
+
+    count(f, group) = the largest number (capped at 2) of consumers that one path through f can run or
+    schedule: consumers at a CFG node, plus count(g) for every nested def / lambda / self.method g used as a
+    value or called at that node (a callback or errback registered there may run), the two arms of a
+    conditional expression and the two targets of addCallbacks being alternatives."""
+
+    def __init__(self, idx, root, seed):
+        self.idx, self.root, self.cls = idx, root, root.cls
+        self.states = 0
+        self.group = {}        # (scope key, name) -> gid; scope key = id(def node) for locals, None for self.<attr>
+        self.desc = {}         # gid -> description
+        self._memo = {}
+        self._busy = set()
+        self._binds = {}
+        self.funcs = []
+        tops = [root]
+        if self.cls is not None:
+            tops += [m for m in self.cls.methods.values() if m is not root]
+        seen = set()
+        for t in tops:
+            stack = [t]
+            while stack:
+                g = stack.pop()
+                if id(g.node) in seen:
+                    continue
+                seen.add(id(g.node))
+                self.funcs.append(g)
+                stack += _sub_funcs(idx, g)
+        self.group[(id(root.node), seed)] = 0
+        self.desc[0] = "the uploadable %s of %s" % (seed, short(root))
+        self._discover()
+
+    # -- names ---------------------------------------------------------------
+    def _bound(self, g):
+        k = id(g.node)
+        if k not in self._binds:
+            b = set(g.params)
+            if not isinstance(g.node, ast.Lambda):
+                for x in _own(g):
+                    if isinstance(x, ast.Name) and isinstance(x.ctx, (ast.Store, ast.Del)):
+                        b.add(x.id)
+            self._binds[k] = b
+        return self._binds[k]
+
+    def _top_cls(self, g):
+        while g.parent is not None:
+            g = g.parent
+        return g.cls
+
+    def resolve(self, g, e):
+        """Group id of the tracked object that expression e (a name / self.<attr>) denotes inside g, else None."""
+        if isinstance(e, ast.Name):
+            h = g
+            while h is not None:
+                gid = self.group.get((id(h.node), e.id))
+                if gid is not None:
+                    return gid
+                if e.id in self._bound(h):
+                    return None
+                h = h.parent
+            return None
+        if isinstance(e, ast.Attribute):
+            p = attr_path(e)
+            if p and p.startswith("self.") and p.count(".") == 1 and self.cls is not None and self._top_cls(g) is self.cls:
+                return self.group.get((None, p))
+        return None
+
+    def _target_key(self, g, t):
+        if isinstance(t, ast.Name):
+            return (id(g.node), t.id)
+        p = attr_path(t)
+        if p and p.startswith("self.") and p.count(".") == 1 and self.cls is not None and self._top_cls(g) is self.cls:
+            return (None, p)
+        return None
+
+    def _nodes(self, g):
+        return list(own_nodes(g.node.body)) if isinstance(g.node, ast.Lambda) else _own(g)
+
+    def passed(self, g, e):
+        """Group ids of tracked objects handed over by argument expression e (not through a nested call / lambda,
+        which are consumers of their own; not as the receiver of an attribute access)."""
+        out = set()
+        stack = [e]
+        while stack:
+            x = stack.pop()
+            if isinstance(x, (ast.Call, ast.Lambda, ast.FunctionDef, ast.AsyncFunctionDef, ast.ClassDef)):
+                continue
+            gid = self.resolve(g, x)
+            if gid is not None:
+                out.add(gid)
+                continue
+            if isinstance(x, ast.Attribute):
+                continue          # x.attr: something taken from the object, not the object
+            if isinstance(x, ast.Starred):
+                stack.append(x.value)
+                continue
+            stack += list(ast.iter_child_nodes(x))
+        return out
+
+    def _is_adapter(self, c):
+        return isinstance(c.func, ast.Name) and _ADAPTER.match(c.func.id) is not None
+
+    def consumed(self, g, c):
+        """Group ids consumed by call c evaluated inside g."""
+        if call_tail(c) in _OBSERVERS or self._is_adapter(c):
+            return set()
+        out = set()
+        if isinstance(c.func, ast.Attribute) and c.func.attr in _READS:
+            gid = self.resolve(g, c.func.value)
+            if gid is not None:
+                out.add(gid)
+        for a in list(c.args) + [k.value for k in c.keywords]:
+            out |= self.passed(g, a)
+        return out
+
+    def _discover(self):
+        changed = True
+        while changed:
+            changed = False
+            for g in self.funcs:
+                if isinstance(g.node, ast.Lambda):
+                    continue
+                for st in _own(g):
+                    if not (isinstance(st, ast.Assign) and len(st.targets) == 1):
+                        continue
+                    key = self._target_key(g, st.targets[0])
+                    if key is None or key in self.group:
+                        continue
+                    v = st.value
+                    gid = self.resolve(g, v)
+                    if gid is None and isinstance(v, ast.Call) and self._is_adapter(v) and v.args:
+                        gid = self.resolve(g, v.args[0])
+                    if gid is not None:
+                        self.group[key] = gid          # an alias
+                        changed = True
+                        continue
+                    if isinstance(v, ast.Call) and self.consumed(g, v):
+                        gid = len(self.desc)
+                        self.group[key] = gid          # a wrapper around a tracked object
+                        self.desc[gid] = "%s (%s = %s in %s)" % (key[1], key[1], call_name(v) or call_tail(v) or "?", short(g))
+                        changed = True
+
+    # -- consumers -----------------------------------------------------------
+    def sites(self, gid):
+        out = []
+        for g in self.funcs:
+            for x in self._nodes(g):
+                if isinstance(x, ast.Call) and gid in self.consumed(g, x):
+                    out.append((g, x))
+        return out
+
+    def _callable(self, g, e):
+        """The function that expression e denotes as a value inside g: lambda, nested def, method of the class."""
+        if isinstance(e, ast.Lambda):
+            return self.idx.lambda_func(g, e)
+        if isinstance(e, ast.Name) and isinstance(e.ctx, ast.Load):
+            h = g
+            while h is not None:
+                f = h.nested.get(e.id)
+                if f is not None and isinstance(f.node, (ast.FunctionDef, ast.AsyncFunctionDef)):
+                    return f
+                if e.id in self._bound(h):
+                    return None
+                h = h.parent
+            return None
+        if isinstance(e, ast.Attribute) and isinstance(e.value, ast.Name) and e.value.id == "self" \
+                and self.cls is not None and self._top_cls(g) is self.cls:
+            return self.cls.methods.get(e.attr)
+        return None
+
+    def weight(self, g, e, gid):
+        if isinstance(e, (ast.FunctionDef, ast.AsyncFunctionDef, ast.ClassDef)):
+            return 0
+        f = self._callable(g, e)
+        if f is not None:
+            return self.count(f, gid)
+        if isinstance(e, ast.IfExp):
+            return min(2, self.weight(g, e.test, gid) + max(self.weight(g, e.body, gid), self.weight(g, e.orelse, gid)))
+        w = 0
+        if isinstance(e, ast.Call):
+            if gid in self.consumed(g, e):
+                w += 1
+            if call_tail(e) == "addCallbacks" and len(e.args) >= 2:
+                w += self.weight(g, e.func, gid) + max(self.weight(g, e.args[0], gid), self.weight(g, e.args[1], gid))
+                for a in list(e.args[2:]) + [k.value for k in e.keywords]:
+                    w += self.weight(g, a, gid)
+                return min(2, w)
+        for ch in ast.iter_child_nodes(e):
+            w += self.weight(g, ch, gid)
+            if w >= 2:
+                return 2
+        return w
+
+    def _node_weight(self, g, n, gid):
+        return min(2, sum(self.weight(g, e, gid) for e in node_exprs(n)))
+
+    def _explore(self, f, gid):
+        cfg = f.cfg()
+        wts = {}
+
+        def transfer(n, lab, nxt, st):
+            if n.id not in wts:
+                wts[n.id] = self._node_weight(f, n, gid)
+            return min(2, st + wts[n.id])
+        visited, parent = explore(cfg, 0, transfer)
+        self.states += len(visited)
+        return cfg, visited, parent
+
+    def count(self, f, gid):
+        k = (id(f.node), gid)
+        if k in self._memo:
+            return self._memo[k]
+        if k in self._busy:
+            return 0
+        self._busy.add(k)
+        try:
+            _cfg, visited, _parent = self._explore(f, gid)
+            c = max([st for (_nid, st) in visited] or [0])
+        finally:
+            self._busy.discard(k)
+        self._memo[k] = c
+        return c
+
+    def overuse(self, gid):
+        """(function, AST node, witness) of a path with two consumers of the group, or None."""
+        scope = [g for g in self.funcs if any(k == id(g.node) and v == gid for ((k, _nm), v) in self.group.items())]
+        bad = [g for g in [self.root] + scope if self.count(g, gid) >= 2]
+        if not bad:
+            return None
+        # innermost function whose own path reaches 2 although none of the callables it uses does on its own
+        cands = [g for g in self.funcs if self._memo.get((id(g.node), gid), 0) >= 2]
+        cands.sort(key=lambda g: -g.qual.count("."))
+        f = bad[0]
+        for g in cands:
+            subs = [self._callable(g, x) for x in (self._nodes(g))]
+            if not any(s is not None and self._memo.get((id(s.node), gid), 0) >= 2 for s in subs):
+                f = g
+                break
+        cfg, visited, parent = self._explore(f, gid)
+        hits = sorted((ps for ps in visited if ps[1] >= 2 and parent.get(ps) is not None and parent[ps][0][1] < 2),
+                      key=lambda ps: ps[0])
+        if not hits:
+            return (f, None, None)
+        ps = hits[0]
+        prev = cfg.nodes[parent[ps][0][0]]
+        return (f, prev.ast, witness(cfg, parent, ps))
